@@ -31,6 +31,7 @@ let () = iter_lines (fun line ->
       let sub = if nc = 1 then 3 else
         match (h0, v0) with (1, 1) -> 0 | (2, 1) -> 1 | (2, 2) -> 2 | (1, 2) -> 4 | (4, 1) -> 5 | (1, 4) -> 6 | _ -> -1 in
       let mcuw = List.nth gen_tjMCUWidth sub in
+      let mcuw_scaled = tjscaled mcuw num den in
       let x = List.nth b 0 and y = List.nth b 1 and rw = List.nth b 2 and rh = List.nth b 3 in
       let sw = iz (tjscaled (zi w) num den) and sh = iz (tjscaled (zi h) num den) in
       let r = tj_set_region (zi w) (zi h) num den mcuw (zi x) (zi y) (zi rw) (zi rh) in
@@ -48,11 +49,16 @@ let () = iter_lines (fun line ->
               | _ -> 0)
            | None -> 0)
         | _ -> 0 in
-      Printf.printf "tj sub=%d sf=%d/%d dims %d %d full=0 set=%s | haz %d over=0\n" sub (iz num) (iz den) sw sh
-        (match r with TjErr -> "-1" | _ -> "0 dec=0") hz
+      let band = match r with
+        | TjOk (x1, _, w1, _) when iz w1 <> sw && iz x1 > 0 && smoothing_active (zi mode) (zi 0) ->
+          iz (smooth_left_band mcuw_scaled (not fu))
+        | _ -> 0 in
+      Printf.printf "tj sub=%d sf=%d/%d dims %d %d full=0 set=%s | haz %d over=0 band=%d\n" sub (iz num) (iz den) sw sh
+        (match r with TjErr -> "-1" | _ -> "0 dec=0") hz band
     end else begin
       let d = ints (List.nth fs 1) in
       let m = List.nth d 0 and fancy = List.nth d 1 = 1 and ocs = List.nth d 4 in
+      let bscan = if List.length d > 5 then List.nth d 5 else 0 in
       let c = ints (List.nth fs 2) in
       let cx = List.nth c 0 and cw = List.nth c 1 in
       let ops = parse_ops (List.nth fs 3) in
@@ -65,9 +71,12 @@ let () = iter_lines (fun line ->
       | Some k when k.k_bad -> print_endline "err"
       | Some k ->
         let b = Buffer.create 1024 in
-        let ms = if mode = 1 || (mode = 2 && nc > 1) then 1 else 0 in
+        let ms = if mode = 1 || mode >= 3 || (mode = 2 && nc > 1) then 1 else 0 in
+        let sm = if smoothing_active (zi mode) (zi bscan) then 1 else 0 in
+        let band = ref 0 in
         Buffer.add_string b (Printf.sprintf "ok dims %d %d M=%d v=%d h=%d ctx=%d mrg=%d ms=%d" (iz k.k_ow) (iz k.k_oh) (iz k.k_M)
           (iz k.k_vmax) (iz k.k_hmax) (if k.k_ctx then 1 else 0) (if k.k_merged then 1 else 0) ms);
+        Buffer.add_string b (Printf.sprintf " sm=%d" sm);
         let ok = ref true in
         let haz5 = ref false in
         if cx >= 0 then begin
@@ -78,6 +87,7 @@ let () = iter_lines (fun line ->
           | CropWhole -> Buffer.add_string b (Printf.sprintf " | crop %d %d ow=%d win" cx cw cw)
           | CropOk (x', w', fi, li) ->
             haz5 := crop_reinit_hazard gen_DCTSIZE (zi w) zcomps k w' && not gen_crop_merged_guard;
+            if sm = 1 && iz x' > 0 then band := iz (smooth_left_band align fancy);
             Buffer.add_string b (Printf.sprintf " | crop %d %d ow=%d win %d %d" (iz x') (iz w') (iz w') (iz fi) (iz li));
             List.iter (fun (hs, _) ->
                 let (f, l) = comp_window align x' w' (if single then zi 1 else hs) in
@@ -101,7 +111,7 @@ let () = iter_lines (fun line ->
           Buffer.add_string b " | prov";
           List.iter (fun p -> Buffer.add_string b (Printf.sprintf " %d" p)) (List.rev !provs);
           let hz = if !haz5 then 5 else if k.k_ctx then iz (first_hazard_c g (c_init g) ops) else iz (first_hazard g a_init ops) in
-          Buffer.add_string b (Printf.sprintf " | haz %d over=%d" hz (if overread g ops then 1 else 0));
+          Buffer.add_string b (Printf.sprintf " | haz %d over=%d band=%d" hz (if overread g ops then 1 else 0) !band);
           print_endline (Buffer.contents b)
         end
     end
